@@ -41,7 +41,7 @@ TRUSTED = [
 ASSUMPTIONS = [
     "fairness (F1): a goroutine whose next step stays enabled is eventually scheduled; a goroutine blocked on a mutex released infinitely often eventually gets it",
     "termination (F2): every task's Run returns",
-    "'eventually started' = safety (task_multiset) + no stuck state (no_stuck_task / resize_converges) + F1 + F2; the step from no-stuck-state to real time is not proved",
+    "'eventually started' is a THEOREM under explicit hypotheses (fair_queued_task_started: Exec.Fair = F1+F2 as one hypothesis, Exec.CallsStopAt) at queue level; fifo_started_in_order gives the order for DefaultTaskQueue; kill_within_bound the bound for a pending shrink. Fairness itself and real-time bounds are assumed / not proved",
     "resize_target holds until the next resize / JoinAll (re-)asserts its request; when a JoinAll and a SetWorkerCount(n>0) overlap the one deciding last wins: JoinAll keeps its request up in its loop (fix C09-joinall-vs-setworkercount), both calls return",
     "'eventually started' is proved at QUEUE level (some queued task is popped after boundedly many internal steps unless the pool is saturated or workerless); "
     "per-task start needs a fair queue (DefaultTaskQueue is FIFO, checked on traces only); engine.TaskQueue can starve a low-priority task under continuous arrivals — not a C09 obligation",
@@ -58,8 +58,10 @@ META = dict(
                 "(no task dropped or started twice); pending work or a pending kill request with a live worker always leaves an enabled pool-internal step "
                 "(no lost wake-up; negative witness proved for the protocol before df51b96); WaitAll's / JoinAll's exit guards imply nothing queued or running / "
                 "everything done and zero workers. Tied to the code by replaying recorded hook traces of directed, randomised and (thorough) systematic schedules."),
-    level_note=("Liveness is 'no stuck state' + assumed fairness and terminating tasks. Trusted: Lean kernel, the hook placement, sync.Mutex/Cond semantics, "
-                "sequential consistency (data races are not modelled), the trace validator's handling of partially ordered records."),
+    level_note=("Liveness: under the explicit hypotheses Exec.Fair (scheduler fairness + terminating tasks, ASSUMED) and Exec.CallsStopAt a queued task is started "
+                "(fair_queued_task_started, queue level; fifo_started_in_order for DefaultTaskQueue's order; kill_within_bound for a pending shrink). "
+                "Trusted: Lean kernel, the hook placement, sync.Mutex/Cond semantics, sequential consistency (data races are not modelled), "
+                "the trace validator's handling of partially ordered records."),
 )
 
 FIELDS = ["added", "done", "q", "w", "i", "stuck", "exec", "wa", "ja", "rs"]
